@@ -116,6 +116,8 @@ func runC15(c *Case, budget int, res *CaseResult) {
 		}
 		res.Counts["rand-functions"]++
 		distinct := map[string]bool{}
+		interior := map[string]bool{} // values of the calls that only deviated inside the large draw ranges
+		interiorRuns := 0
 		hadChoice := false
 		aborted := false
 		var st explore.Stats
@@ -137,6 +139,7 @@ func runC15(c *Case, budget int, res *CaseResult) {
 					panic(abort{})
 				}
 				vrand.C, vrand.Calls = ch, 0
+				vrand.Deviated, vrand.Boundary = false, false
 				val, perr = nil, nil
 				func() {
 					defer func() { perr = recover() }()
@@ -144,6 +147,10 @@ func runC15(c *Case, budget int, res *CaseResult) {
 				}()
 				if perr == nil {
 					distinct[fmt.Sprintf("%#v", val)] = true
+					if !vrand.Boundary {
+						interior[fmt.Sprintf("%#v", val)] = true
+						interiorRuns++
+					}
 				}
 			}, func(r *explore.Run) {
 				cost := explore.Cost(r.Choices)
@@ -189,6 +196,14 @@ func runC15(c *Case, budget int, res *CaseResult) {
 		res.Counts["rand-transitions"] += st.Transitions
 		if res.Sets == nil {
 			res.Sets = map[string][]string{}
+		}
+		res.Counts["interior-runs:"+t.String()] += interiorRuns
+		ni := 0
+		for h := range interior {
+			if ni < 3 {
+				res.Sets["interior:"+t.String()] = append(res.Sets["interior:"+t.String()], evidHash(h))
+			}
+			ni++
 		}
 		n := 0
 		for h := range distinct {
